@@ -56,6 +56,9 @@ func looksTyped(s string) bool {
 	if _, err := strconv.ParseFloat(s, 64); err == nil {
 		return true
 	}
+	if len(s) >= 8 && s[0] >= '0' && s[0] <= '9' && strings.Count(s, "-") >= 2 {
+		return true // dates / timestamps
+	}
 	return strings.HasPrefix(s, "0x") || strings.HasPrefix(s, "0o") || strings.HasPrefix(s, ".") || strings.HasPrefix(s, "-") || strings.HasPrefix(s, "<<")
 }
 
